@@ -6,7 +6,7 @@ import random
 
 from vlib import core
 
-DIM_ORDER = ["what", "op", "sel", "ver", "tracing", "payload", "beta", "compressed", "comp", "kind", "rtracing", "rpayload", "rwarning", "rcompressed", "verdict"]
+DIM_ORDER = ["what", "op", "sel", "form", "ver", "tracing", "payload", "beta", "compressed", "comp", "kind", "rtracing", "rpayload", "rwarning", "rcompressed", "verdict"]
 
 
 def extract_rows(out, tag):
